@@ -100,13 +100,15 @@ class Process:
     def handler(key: str) -> Type["Process"]:
         """Get a handler"""
         if Process.HANDLERS is None:
-            Process.HANDLERS = {}
+            # Publish the table only when complete (called from several threads)
+            handlers = {}
             for ep in pkg_resources.iter_entry_points(group="experimaestro.process"):
                 logging.debug("Adding process handler for type %s", ep.name)
                 handler = ep.load()
-                Process.HANDLERS[ep.name] = handler
+                handlers[ep.name] = handler
                 if handler is None:
                     logging.error("Handler of type %s is null", ep.name)
+            Process.HANDLERS = handlers
 
         return Process.HANDLERS.get(key, None)
 
